@@ -52,10 +52,11 @@ def judge(ex, h):
     got = [m for m in msgs if m[1] is not None]
     if h.get('loop'):
         # frames written by the loop thread itself
-        loop_frames = [m for m in got if m == (PONG, b'sp') or m == (PING, b'')]
-        if loop_frames.count((PONG, b'sp')) != 1:
+        app_pings = [m for m in sent if m[0] == PING]
+        if got.count((PONG, b'sp')) != 1:
             out.append(('loop-pong', 'expected exactly one Pong(sp) from the loop thread, wire %s' % brief(got)))
-        got = [m for m in got if m not in ((PONG, b'sp'), (PING, b''))]
+        # frames written by the loop thread itself: the Pong and any automatic Ping (whatever its payload)
+        got = [m for m in got if m != (PONG, b'sp') and not (m[0] == PING and m not in app_pings)]
     if not any(p[0] in ('peer-cannot-inflate', 'torn-frame', 'invalid-frame') for p in problems):
         if collections.Counter(got) != collections.Counter(sent):
             out.append(('messages-differ', 'peer decoded %s, application sent %s' % (brief(got), brief(sent))))
